@@ -279,6 +279,12 @@ func mergeValues(opts *options, old, v value) (value, Error) {
 		return v, nil
 	}
 
+	// a setting that only REFERS to a sub-configuration (${other}) is merged into a
+	// copy of it: the referenced setting itself is no part of this merge
+	if _, isRef := old.(*cfgDynamic); isRef {
+		subOld = cfgSub{subOld}.cpy(old.Context()).(cfgSub).c
+	}
+
 	// merge new and old evaluated sub-configurations and return subOld for
 	// reassigning to old key in case of subOld being generated dynamically
 	if err := mergeConfig(opts, subOld, subV); err != nil {
